@@ -37,7 +37,7 @@ BootImage(ev) == [term |-> ev.term, vote |-> ev.vote, commit |-> ev.commit,
 
 Init == /\ D = Fresh(DInit) /\ W = Fresh(WInit) /\ dead = Fresh(FALSE) /\ cand = Fresh({DInit})
         /\ tail = Fresh(DInit) /\ l = 1 /\ bad = {} /\ drift = {}
-        /\ cnt = [save |-> 0, send |-> 0, implied |-> 0, crash |-> 0, boot |-> 0, final |-> 0]
+        /\ cnt = [save |-> 0, send |-> 0, implied |-> 0, crash |-> 0, boot |-> 0, final |-> 0, apply |-> 0]
 
 Next ==
   /\ l <= Len(Trace)
@@ -64,6 +64,12 @@ Next ==
             /\ cnt' = [cnt EXCEPT !.send = @ + 1,
                                   !.implied = @ + Cardinality({k \in 1..Len(ev.msgs) : Implies(ev.msgs[k])})]
             /\ UNCHANGED <<D, dead, cand, tail, drift>>
+       [] ev.ev = "Apply" /\ ev.shard = 1 /\ ~dead[ev.h] ->
+            \* a replica hands an entry to the user state machine only after it made the entry durable
+            \* itself (engine.go: entries that are still to be saved are applied after SaveRaftState)
+            /\ bad' = IF ApplyCovered(D[ev.h], ev.last) THEN bad ELSE Flag(ev, "AppliedBeforeSaved", {ev.h})
+            /\ cnt' = [cnt EXCEPT !.apply = @ + 1]
+            /\ UNCHANGED <<D, W, dead, cand, tail, drift>>
        [] ev.ev = "Crash" ->
             /\ dead' = [dead EXCEPT ![ev.h] = TRUE]
             /\ cand' = [cand EXCEPT ![ev.h] = {D[ev.h]}]
